@@ -35,6 +35,7 @@ var targets = []string{
 	"isLocalRedirectTarget", "buildFullURL", "TraefikOidc.extractGroupsAndRoles", "splitIntoChunks",
 	"TraefikOidc.VerifyJWTSignatureAndClaims", "TraefikOidc.isUserAuthenticated",
 	"TraefikOidc.performPreVerificationChecks", "TraefikOidc.cacheVerifiedToken", "TraefikOidc.VerifyToken", "TraefikOidc.RevokeToken",
+	"Cache.removeItem", "Cache.evictOldest", "Cache.Set", "Cache.Get", "Cache.Delete", "Cache.Cleanup",
 }
 
 // calls that read or change the state shared between requests (token cache, revocation list, limiter): the translated function
@@ -79,6 +80,7 @@ type fn struct {
 	key      string
 	decl     *ast.FuncDecl
 	needsNow bool
+	recvMut  bool // method of a struct it changes in place (cache.go): takes the struct and returns the new one next to its result
 	stateful bool // reads or changes the shared state: takes `ops` and `w`, returns the new state next to its result
 	fuel     bool // contains a general `for` loop: takes a fuel argument, result wrapped in Option (none = fuel exhausted)
 	calls    []string
@@ -157,6 +159,14 @@ func leanType(t string) string {
 		return "(List Go.JWK)"
 	case "pem":
 		return "Go.Pem"
+	case "cache":
+		return "Go.CacheS"
+	case "citem":
+		return "Go.CacheItem"
+	case "elemp":
+		return "(Option Go.Elem)"
+	case "lru":
+		return "Go.Elem"
 	}
 	fail(nil, "no Lean type for %q", t)
 	return ""
@@ -176,6 +186,10 @@ func goType(e ast.Expr) string {
 			return "f64"
 		case "error":
 			return "error"
+		case "CacheItem":
+			return "citem"
+		case "lruEntry":
+			return "lru"
 		}
 	case *ast.InterfaceType:
 		return "any"
@@ -204,7 +218,12 @@ func goType(e ast.Expr) string {
 				return "jwkp"
 			case "JWKSet":
 				return "jwks"
+			case "Cache":
+				return "cache"
 			}
+		}
+		if sel, ok := t.X.(*ast.SelectorExpr); ok && src(sel) == "list.Element" {
+			return "elemp"
 		}
 	case *ast.SelectorExpr:
 		switch src(t) {
@@ -401,6 +420,11 @@ func (c *ctx) expr(e ast.Expr) (string, string) {
 			return "(Go.idx " + m + " " + k + ")", "str"
 		}
 	case *ast.TypeAssertExpr:
+		if sel, ok := x.X.(*ast.SelectorExpr); ok && sel.Sel.Name == "Value" && x.Type != nil && goType(x.Type) == "lru" {
+			if ev, et := c.expr(sel.X); et == "elemp" {
+				return "(Go.elemValue " + ev + ")", "lru"
+			}
+		}
 		v, t := c.expr(x.X)
 		if t == "any" && x.Type != nil && goType(x.Type) == "f64" {
 			return "(Go.assertF64 " + v + ")", "f64" // (panics in Go when the value holds another type)
@@ -421,6 +445,24 @@ func (c *ctx) expr(e ast.Expr) (string, string) {
 		}
 		fail(x, "unsupported slice form")
 	case *ast.CompositeLit:
+		if id, ok := x.Type.(*ast.Ident); ok && (id.Name == "CacheItem" || id.Name == "lruEntry") {
+			fields := map[string]string{}
+			for _, el := range x.Elts {
+				kv, ok := el.(*ast.KeyValueExpr)
+				if !ok {
+					fail(x, "composite literal without field names")
+				}
+				v, _ := c.expr(kv.Value)
+				fields[src(kv.Key)] = v
+			}
+			if id.Name == "lruEntry" && len(fields) == 1 && fields["key"] != "" {
+				return "(Go.lruEntry " + fields["key"] + ")", "lru"
+			}
+			if id.Name == "CacheItem" && len(fields) == 2 && fields["Value"] != "" && fields["ExpiresAt"] != "" {
+				return "({ Value := " + fields["Value"] + ", ExpiresAt := " + fields["ExpiresAt"] + " } : Go.CacheItem)", "citem"
+			}
+			fail(x, "unsupported composite literal")
+		}
 		if goType(x.Type) == "boolmap" {
 			var items []string
 			for _, el := range x.Elts {
@@ -449,7 +491,7 @@ func (c *ctx) binary(x *ast.BinaryExpr) (string, string) {
 			}
 		}
 		s, t := c.expr(x.X)
-		if t == "error" || t == "jwkp" {
+		if t == "error" || t == "jwkp" || t == "elemp" {
 			if x.Op == token.NEQ {
 				return s + ".isSome", "bool"
 			}
@@ -515,6 +557,20 @@ func (c *ctx) selector(x *ast.SelectorExpr) (string, string) {
 		return r + ".Keys", "jwklist"
 	case "jwk.Kid", "jwk.Kty":
 		return r + "." + x.Sel.Name, "str"
+	case "cache.items":
+		return r + ".items", "cmap"
+	case "cache.elems":
+		return r + ".elems", "emap"
+	case "cache.order":
+		return r + ".order", "clist"
+	case "cache.maxSize":
+		return r + ".maxSize", "int"
+	case "citem.Value":
+		return r + ".Value", "any"
+	case "citem.ExpiresAt":
+		return r + ".ExpiresAt", "time"
+	case "lru.key":
+		return "(Go.lruKey " + r + ")", "str"
 	}
 	fail(x, "unsupported field %s of a %s", x.Sel.Name, t)
 	return "", ""
@@ -545,7 +601,7 @@ func (c *ctx) call(x *ast.CallExpr) (string, string) {
 	case "len":
 		a, t := c.expr(x.Args[0])
 		switch t {
-		case "str", "strs", "anys", "set", "obj", "boolmap":
+		case "str", "strs", "anys", "set", "obj", "boolmap", "cmap", "emap":
 			return "(" + a + ".length : Int)", "int"
 		}
 		fail(x, "len of a %s", t)
@@ -670,6 +726,33 @@ func (c *ctx) call(x *ast.CallExpr) (string, string) {
 		as, _ := c.args(x)
 		return "(Go.split " + as[0] + " " + as[1] + ")", "strs"
 	}
+	// time.Duration(float64(d) * 0.1): a duration scaled by a decimal constant (truncated toward zero)
+	if fun == "time.Duration" && len(x.Args) == 1 {
+		if be, ok := x.Args[0].(*ast.BinaryExpr); ok && be.Op == token.MUL {
+			if fc, ok := be.X.(*ast.CallExpr); ok && src(fc.Fun) == "float64" {
+				if fl, ok := be.Y.(*ast.BasicLit); ok && fl.Kind == token.FLOAT && strings.HasPrefix(fl.Value, "0.") {
+					d, dt := c.expr(fc.Args[0])
+					if dt == "dur" {
+						digits := fl.Value[2:]
+						return "(Go.durScale " + d + " (" + strings.TrimLeft(digits, "0") + " : Int) (1" + strings.Repeat("0", len(digits)) + " : Int))", "dur"
+					}
+				}
+			}
+		}
+		fail(x, "unsupported conversion to time.Duration")
+	}
+	if sel, ok := x.Fun.(*ast.SelectorExpr); ok {
+		if inner, ok := sel.X.(*ast.SelectorExpr); ok && inner.Sel.Name == "order" {
+			if r, t := c.expr(inner.X); t == "cache" && sel.Sel.Name == "Front" {
+				return "(Go.listFront " + r + ".order)", "elemp"
+			}
+		}
+		if sel.Sel.Name == "Next" && len(x.Args) == 0 {
+			if ev, et := c.expr(sel.X); et == "elemp" && c.recv != "" {
+				return "(Go.listNext " + c.recv + ".order " + ev + ")", "elemp"
+			}
+		}
+	}
 	if se, ok := statefulExternals[fun]; ok && len(se.res) <= 1 {
 		as, ts := c.args(x)
 		if se.anyAt >= 0 {
@@ -744,6 +827,63 @@ func (c *ctx) call(x *ast.CallExpr) (string, string) {
 	return "", ""
 }
 
+// recvStmt translates a call statement of a method that changes its receiver struct in place (cache.go)
+func (c *ctx) recvStmt(call *ast.CallExpr, k func() string) (string, bool) {
+	fun := src(call.Fun)
+	r := c.recv
+	upd := func(field, val string) string {
+		return fmt.Sprintf("let %s := { %s with %s := %s }\n%s", r, r, field, val, k())
+	}
+	switch {
+	case strings.HasPrefix(fun, r+".mutex."):
+		return k(), true
+	case fun == r+".order.MoveToBack" || fun == r+".order.Remove" || fun == r+".order.MoveToFront":
+		a, t := c.expr(call.Args[0])
+		if t != "elemp" {
+			fail(call, "list operation on a %s", t)
+		}
+		op := map[string]string{"MoveToBack": "listMoveToBack", "Remove": "listRemove", "MoveToFront": "listMoveToFront"}[fun[len(r+".order."):]]
+		return upd("order", "Go."+op+" "+r+".order "+a), true
+	case fun == "delete" && len(call.Args) == 2:
+		m, mt := c.expr(call.Args[0])
+		key, _ := c.expr(call.Args[1])
+		switch mt {
+		case "cmap":
+			return upd("items", "Go.cmapDel "+m+" "+key), true
+		case "emap":
+			return upd("elems", "Go.emapDel "+m+" "+key), true
+		}
+		fail(call, "delete on a %s", mt)
+	}
+	if sel, ok := call.Fun.(*ast.SelectorExpr); ok {
+		if id, ok := sel.X.(*ast.Ident); ok {
+			if ln, _, ok := c.lookup(id.Name); ok && ln == r {
+				if g := byName[sel.Sel.Name]; g != nil && g.recvMut && len(g.retTypes) == 0 {
+					c.f.calls = append(c.f.calls, g.key)
+					parts := []string{leanName(g.key)}
+					if g.fuel {
+						c.f.fuel = true
+						parts = append(parts, "fuel")
+					}
+					if g.needsNow {
+						c.f.needsNow = true
+						parts = append(parts, "now")
+					}
+					parts = append(parts, r)
+					as, _ := c.args(call)
+					parts = append(parts, as...)
+					callS := "(" + strings.Join(parts, " ") + ")"
+					if g.fuel {
+						return fmt.Sprintf("match %s with\n| none => none\n| some %s =>\n%s", callS, r, indent(k())), true
+					}
+					return fmt.Sprintf("let %s := %s\n%s", r, callS, k()), true
+				}
+			}
+		}
+	}
+	return "", false
+}
+
 // takePre returns (and forgets) the bindings of the state-changing calls made by the expressions translated so far; a statement
 // puts them in front of its own code BEFORE it asks for the code that follows it
 func (c *ctx) takePre() string {
@@ -810,8 +950,8 @@ func canonical(s string) string {
 
 func (c *ctx) callTranslated(g *fn, x *ast.CallExpr, recv string) (string, string) {
 	c.f.calls = append(c.f.calls, g.key)
-	if g.fuel {
-		fail(x, "call of a function with a general loop (%s)", g.key)
+	if g.fuel || g.recvMut {
+		fail(x, "call of a function with a general loop, or of a method that changes its struct, inside an expression (%s)", g.key)
 	}
 	parts := []string{leanName(g.key)}
 	if g.needsNow {
@@ -906,6 +1046,31 @@ func (c *ctx) assign(s *ast.AssignStmt, k func() string) string {
 	if s.Tok != token.DEFINE && s.Tok != token.ASSIGN {
 		fail(s, "unsupported assignment operator")
 	}
+	if c.f.recvMut && len(s.Lhs) == 1 && len(s.Rhs) == 1 {
+		r := c.recv
+		if ix, ok := s.Lhs[0].(*ast.IndexExpr); ok && s.Tok == token.ASSIGN { // c.items[key] = v, c.elems[key] = elem
+			m, mt := c.expr(ix.X)
+			key, _ := c.expr(ix.Index)
+			v, _ := c.expr(s.Rhs[0])
+			switch mt {
+			case "cmap":
+				return fmt.Sprintf("let %s := { %s with items := Go.cmapSet %s %s %s }\n%s", r, r, m, key, v, k())
+			case "emap":
+				return fmt.Sprintf("let %s := { %s with elems := Go.emapSet %s %s %s }\n%s", r, r, m, key, v, k())
+			}
+			fail(s, "assignment to an element of a %s", mt)
+		}
+		if call, ok := s.Rhs[0].(*ast.CallExpr); ok && src(call.Fun) == r+".order.PushBack" { // elem := c.order.PushBack(v)
+			v, vt := c.expr(call.Args[0])
+			if vt != "lru" {
+				fail(s, "PushBack of a %s", vt)
+			}
+			e := bind(s.Lhs[0], "elemp")
+			c.fresh++
+			l := fmt.Sprintf("l_%d", c.fresh)
+			return fmt.Sprintf("let (%s, %s) := Go.listPushBack %s.order %s\nlet %s := { %s with order := %s }\n%s", e, l, r, v, r, r, l, k())
+		}
+	}
 	if len(s.Lhs) == 2 && len(s.Rhs) == 1 {
 		switch r := s.Rhs[0].(type) {
 		case *ast.TypeAssertExpr:
@@ -963,6 +1128,12 @@ func (c *ctx) assign(s *ast.AssignStmt, k func() string) string {
 			m, mt := c.expr(r.X)
 			key, _ := c.expr(r.Index)
 			switch mt {
+			case "cmap":
+				a, ok := bind(s.Lhs[0], "citem"), bind(s.Lhs[1], "bool")
+				return fmt.Sprintf("let (%s, %s) := Go.cmapGet %s %s\n%s", a, ok, m, key, k())
+			case "emap":
+				a, ok := bind(s.Lhs[0], "elemp"), bind(s.Lhs[1], "bool")
+				return fmt.Sprintf("let (%s, %s) := Go.emapGet %s %s\n%s", a, ok, m, key, k())
 			case "obj":
 				a, ok := bind(s.Lhs[0], "any"), bind(s.Lhs[1], "bool")
 				return fmt.Sprintf("let (%s, %s) := Go.mapGet2 %s %s\n%s", a, ok, m, key, k())
@@ -1006,6 +1177,23 @@ func (c *ctx) assign(s *ast.AssignStmt, k func() string) string {
 	return hp + out.String() + k()
 }
 
+// valueWrap adds what the function hands back besides its results: the shared state `w`, or the struct a method changed in place
+func (c *ctx) valueWrap(e string) string {
+	extra := ""
+	if c.f.stateful {
+		extra = "w"
+	} else if c.f.recvMut {
+		extra = c.recv
+	}
+	if extra == "" {
+		return e
+	}
+	if e == "()" {
+		return extra
+	}
+	return "(" + e + ", " + extra + ")"
+}
+
 func (c *ctx) ret(s *ast.ReturnStmt) string {
 	var vals []string
 	for i, r := range s.Results {
@@ -1015,6 +1203,8 @@ func (c *ctx) ret(s *ast.ReturnStmt) string {
 				v = "(none : Go.Err)"
 			} else if i < len(c.f.retTypes) && (c.f.retTypes[i] == "strs" || c.f.retTypes[i] == "anys") {
 				v = zero(c.f.retTypes[i])
+			} else if i < len(c.f.retTypes) && c.f.retTypes[i] == "any" {
+				v = "Go.Any.nil"
 			} else {
 				fail(s, "nil returned as something that is not an error")
 			}
@@ -1027,16 +1217,10 @@ func (c *ctx) ret(s *ast.ReturnStmt) string {
 	} else if len(vals) > 1 {
 		e = "(" + strings.Join(vals, ", ") + ")"
 	}
-	if c.f.stateful {
-		if len(c.retWrap) != 1 {
-			fail(s, "return inside a loop of a function on the shared state")
-		}
-		if len(vals) == 0 {
-			return c.takePre() + "w"
-		}
-		return c.takePre() + "(" + e + ", w)"
+	if c.f.stateful && len(c.retWrap) != 1 {
+		fail(s, "return inside a loop of a function on the shared state")
 	}
-	return c.takePre() + c.retWrap[len(c.retWrap)-1](e)
+	return c.takePre() + c.retWrap[len(c.retWrap)-1](c.valueWrap(e))
 }
 
 // assigned collects the outer variables (by Lean name) a loop body assigns
@@ -1056,6 +1240,9 @@ func (c *ctx) assigned(n ast.Node) []string {
 		}
 		return true
 	})
+	if c.f.recvMut && c.recv != "" && !seen[c.recv] {
+		out = append(out, c.recv)
+	}
 	sort.Strings(out)
 	return out
 }
@@ -1076,6 +1263,11 @@ func (c *ctx) stmt(s ast.Stmt, k func() string) string {
 		if isLogger(x.X) {
 			return k()
 		}
+		if call, ok := x.X.(*ast.CallExpr); ok && c.f.recvMut {
+			if out, ok := c.recvStmt(call, k); ok {
+				return out
+			}
+		}
 		if call, ok := x.X.(*ast.CallExpr); ok { // a call for its effect on the shared state
 			_, t := c.expr(call)
 			if t == "unit" && len(c.pre) > 0 {
@@ -1083,6 +1275,10 @@ func (c *ctx) stmt(s ast.Stmt, k func() string) string {
 				return p + k()
 			}
 			fail(x, "call statement without effect on the shared state")
+		}
+	case *ast.DeferStmt:
+		if strings.Contains(src(x.Call.Fun), ".mutex.") { // (the lock discipline is an obligation of its own: regenerated facts)
+			return k()
 		}
 	case *ast.EmptyStmt:
 		return k()
@@ -1262,6 +1458,8 @@ func (c *ctx) stmt(s ast.Stmt, k func() string) string {
 				}
 			}
 			varExpr = x.Value
+		case "cmap":
+			elemT = "cpair"
 		case "set":
 			elemT = "str"
 			if x.Value != nil {
@@ -1280,7 +1478,19 @@ func (c *ctx) stmt(s ast.Stmt, k func() string) string {
 		if varExpr != nil {
 			v = varExpr.(*ast.Ident).Name
 		}
-		lv := c.declare(v, elemT)
+		var lv string
+		if elemT == "cpair" { // for key, item := range c.items
+			kn, vn := "_", "_"
+			if x.Key != nil {
+				kn = x.Key.(*ast.Ident).Name
+			}
+			if x.Value != nil {
+				vn = x.Value.(*ast.Ident).Name
+			}
+			lv = "(" + c.declare(kn, "str") + ", " + c.declare(vn, "citem") + ")"
+		} else {
+			lv = c.declare(v, elemT)
+		}
 		c.retWrap = append(c.retWrap, func(e string) string { return ".ret (" + e + ")" })
 		c.brk = append(c.brk, func() string { return ".brk " + st })
 		body := c.block(x.Body, func() string { return ".next " + st })
@@ -1329,6 +1539,9 @@ func (f *fn) translate() (code string, err string) {
 		t := goType(r.Type)
 		c.recv = c.declare(r.Names[0].Name, t)
 		params = append(params, fmt.Sprintf("(%s : %s)", c.recv, leanType(t)))
+		if t == "cache" {
+			f.recvMut = true
+		}
 	}
 	for _, p := range f.decl.Type.Params.List {
 		t := goType(p.Type)
@@ -1348,10 +1561,7 @@ func (f *fn) translate() (code string, err string) {
 	}
 	body := c.block(f.decl.Body, func() string {
 		if len(f.retTypes) == 0 {
-			if f.stateful {
-				return "w"
-			}
-			return "()"
+			return c.retWrap[0](c.valueWrap("()"))
 		}
 		fail(f.decl, "control reaches the end of a function with results")
 		return ""
@@ -1371,12 +1581,19 @@ func (f *fn) translate() (code string, err string) {
 			rt = rt + " × σ"
 		}
 	}
+	if f.recvMut {
+		if len(rts) == 0 {
+			rt = "Go.CacheS"
+		} else {
+			if len(rts) > 1 {
+				rt = "(" + rt + ")"
+			}
+			rt = rt + " × Go.CacheS"
+		}
+	}
 	if f.fuel {
 		params = append([]string{"(fuel : Nat)"}, params...)
-		if len(rts) > 1 {
-			rt = "(" + rt + ")"
-		}
-		rt = "Option " + rt
+		rt = "Option (" + rt + ")"
 	}
 	return fmt.Sprintf("def %s %s : %s :=\n%s\n", leanName(f.key), strings.Join(params, " "), rt, indent(body)), ""
 }
